@@ -181,6 +181,13 @@ def explore(ctx):
                     for q in allp[:3]:
                         shear_cases.append({"spec": sp, "strain": s, "keys": [list(q), list(p)]})
     ctx.run(MOD, "run_shear", shear_cases, part="shear-identity")
+    # axis-length dimension (see c01.run_long_axis): the adiabatic values and the adiabatic-isothermal gap on T / V axes far
+    # longer than the lattice's grids must equal, row by row, the same points evaluated in chunks of <= 8 on fresh objects
+    lt = c01.LONG_T if ctx.quick else sorted(set(c01.LONG_T + list(range(17, 201)) + [256, 258, 320, 384, 385, 512, 513]))
+    lv = c01.LONG_V if ctx.quick else sorted(set(c01.LONG_V + list(range(17, 201)) + [256, 257, 400, 402, 512, 513]))
+    ctx.run("mc.props.c01", "run_long_axis", [{"axis": a, "n": n, "adiabatic": True, "prefix": "c02"} for a, ns in (("T", lt), ("V", lv)) for n in ns],
+            part="axis-lengths", chunksize=1)
+    ctx.notes["axis_lengths"] = {"T": lt, "V": lv}
     ctx.run_under(MOD, "run_shear", shear_cases[:2] + shear_cases[-2:], ("-O",))
     import itertools
     orders = [list(p) for L in (1, 2, 3) for p in itertools.product(range(4), repeat=L)]
